@@ -130,6 +130,7 @@ type Rec struct {
 	violations  int
 	maxSamples  int
 	lastFailKey string
+	autoSamples []any
 }
 
 // R is the package-level recorder, initialised by Main.
@@ -249,6 +250,9 @@ func (r *Rec) Case(nontrivial bool, key string) {
 	r.evals++
 	if nontrivial {
 		r.distinct[Hash64(key)] = struct{}{}
+		if len(r.autoSamples) < 3 && key != "" { // safety net: a check that never calls Sample still shows cases
+			r.autoSamples = append(r.autoSamples, clip(key))
+		}
 	}
 	r.mu.Unlock()
 }
@@ -547,6 +551,9 @@ func (r *Rec) writeEvidence() {
 	cov["distinct_nontrivial"] = len(r.distinct)
 	cov["rule"] = r.Rule
 	samples := r.samples
+	if len(samples) == 0 {
+		samples = r.autoSamples
+	}
 	if samples == nil {
 		samples = []any{}
 	}
